@@ -117,6 +117,11 @@ def check(ctx):
         raise vlib.Infra("PipelineTrace run ended unexpectedly: %s" % out)
     else:
         ctx.traces_validated += len(jobs)
+    okr = next((r for r in results if "events" in r), None)
+    if okr:
+        j = jobs[results.index(okr)]
+        ctx.sample({"proto": j["proto"], "workers": j["workers"], "classes": okr["class"], "decoded_count": okr["decoded_count"],
+                    "templates": len(j["templates"]), "events_tail": okr["events"][-6:]})
     # ---- end to end
     end_to_end(ctx, thorough)
 
@@ -271,6 +276,7 @@ def end_to_end(ctx, thorough):
             ctx.extra.setdefault("end_to_end", {})[proto] = {"datagrams": len(data) + len(tpls), "udpcount": st["UDPCount"] - base["UDPCount"],
                                                              "decoded": dec + (len(tpls)), "published": len(lines), "expected_published": npub}
         ctx.traces_validated += 1
+        ctx.sample({"end_to_end": ctx.extra.get("end_to_end")})
         rc, secs = col.stop()
         if rc != 0:
             ctx.extra["shutdown_exit"] = rc
